@@ -214,7 +214,11 @@ def rule_sites(ctx):
             r.instance("%s(%s) in %s" % (name, v, b.name), ok)
             if not ok:
                 r.violate(b.name, name, "flag may be cleared (argument is not the constant true)", b.loc(bi))
-    r.require(len(rmw), 10, "RMW sites on the count word")
+    # the floor counts roles, not syntactic sites: a CAS loop shared by several functions through a helper (read inlined into
+    # each of them) is one site per function that uses it
+    role_rmw = {(d["fn"], d["loc"], d["op"], str(sorted(d["delta"].items())), str(sorted(d["sets"].items()))) for d in table
+                if d["op"] != "load"}
+    r.require(max(len(rmw), len(role_rmw)), 10, "RMW sites on the count word")
     r.notes.append("RMW sites=%d loads=%d init=1" % (len(rmw), len(loads)))
     ctx.site_table = table
     return r
@@ -829,8 +833,46 @@ def rule_zero_defers(ctx):
             r.instance("%s: the decrement is followed by a zero test on some path" % key[0].split("::")[-1], False)
             r.violate(key[0], "never-decided", "no path decides whether this strong decrement hit zero: a child whose count "
                       "reaches zero is neither destructed nor handed on (it is never destructed)", undecided_loc[key])
+    # hand-off after the mark: an object this path has marked DESTRUCTED must be destructed by this path. Handing it to a fresh
+    # attempt only works if the attempt goes on with a word that is already marked - not if it returns (hardening against
+    # stale attempts) or asserts `!destructed` (debug builds): then nobody ever destructs it
+    att = _attempt_on_marked(ctx)
+    for f in fns:
+        for p in (ctx.paths(f) if f == DGN else ctx.paths2(f)):
+            if p.exit[0] == "diverge":
+                continue
+            for s in ctx.sites_on_path(p):
+                if s["outcome"] != "ok" or const_of(s["sets"].get("destructed", ("c", None, ""))) != 1:
+                    continue
+                objroot = ptr_root(s["obj"])
+                hs = [h for h in handoffs(ctx, p, s["idx"]) if h[1] == objroot and h[0] == "defer:" + TRY_DESTRUCT]
+                for h in hs:
+                    ok = att == "proceeds"
+                    r.instance("%s: marked DESTRUCTED, then handed to a deferred try_destruct, which %s on a marked word"
+                               % (f.split("::")[-1], att), ok)
+                    if not ok:
+                        r.violate(f, "handoff-after-mark", "the object is marked DESTRUCTED and then handed to a deferred "
+                                  "try_destruct, which %s when it finds the mark: nobody destructs the object (and what it "
+                                  "owns) any more" % ("returns at once" if att == "ignores" else "panics (debug assertion)"),
+                                  h[2].loc())
     r.require(len(nsites), 2, "strong-decrementing sites")
     return r
+
+
+def _attempt_on_marked(ctx):
+    """What does try_destruct do with a word that is already marked DESTRUCTED: 'ignores' (an explicit test returns without
+    disposing), 'asserts' (a debug assertion on !destructed panics), 'proceeds' (no test: its CAS re-marks, then dispose)."""
+    res = "proceeds"
+    for p in ctx.paths2(TRY_DESTRUCT):
+        gone = [q for q in ctx.predicates(p) if q["field"] == "destructed" and q["rel"] == "==" and const_of(q["rhs"]) == 1]
+        if not gone:
+            continue
+        disp = [e for e in p.events if e.kind == "call" and e.target in (DISPOSE, DGN)]
+        if p.exit[0] == "diverge":
+            res = "asserts"
+        elif not disp and res != "asserts":
+            res = "ignores"
+    return res
 
 
 def rule_attempt_recheck(ctx):
@@ -855,6 +897,17 @@ def rule_attempt_recheck(ctx):
         allp = ctx.predicates(p)
         pos = [q for q in allp if q["field"] == "strong" and q["rel"] == "!=" and const_of(q["rhs"]) == 0 and not q["exp"]]
         zero = [q for q in allp if q["field"] == "strong" and q["rel"] == "==" and const_of(q["rhs"]) == 0 and not q["exp"]]
+        gone = [q for q in allp if q["field"] == "destructed" and q["rel"] == "==" and const_of(q["rhs"]) == 1 and not q["exp"]]
+        if gone and (not pos and not zero or (p.exit[0] == "return" and not okcas and not decs and not disp)):
+            # a stale attempt that finds the object already marked DESTRUCTED and does nothing: hardening. An attempt exists only
+            # for an unmarked object (CW-ZERO-DEFERS `handoff-after-mark` asks exactly that of every hand-off), so the arm is dead
+            ok = not decs and not disp and not okcas and p.exit[0] == "return"
+            r.instance("already DESTRUCTED -> the stale attempt does nothing", ok)
+            if not ok:
+                r.violate(f, "destructed", "an attempt that finds the object already marked DESTRUCTED must not touch it "
+                          "(found decrements=%d dispose=%d cas=%d)" % (len(decs), len(disp), len(okcas)),
+                          p.body.loc(p.blocks[-1][1]))
+            continue
         if pos:
             n += 1
             ok = (len(decs) == 1 and const_of(decs[0].args[1]) == 1 and not disp and not okcas
@@ -899,21 +952,37 @@ def _depth_class(t):
 
 
 def _path_consistent_with_arg(ctx, p, argidx, cls):
-    """Filter callee paths by a Zero/NonZero context for integer parameter argidx."""
+    """Filter callee paths by a Zero/NonZero context for the unsigned integer parameter argidx: every comparison of the
+    parameter with a constant that the path took must be possible for a value of that class (`depth == 0`, `depth > 0`,
+    `depth >= 1`, `0 < depth`, ... are the same test)."""
     if cls == "any":
         return True
+    import operator
+    OPS = {"Eq": operator.eq, "Ne": operator.ne, "Lt": operator.lt, "Le": operator.le, "Gt": operator.gt, "Ge": operator.ge}
+    FLIP = {"Eq": "Eq", "Ne": "Ne", "Lt": "Gt", "Le": "Ge", "Gt": "Lt", "Ge": "Le"}
     for e in p.events:
-        if e.kind != "cond" or not isinstance(e.value, int):
+        if e.kind != "cond" or not isinstance(e.value, int) or e.value not in (0, 1):
             continue
         t = e.term
-        if isinstance(t, tuple) and t[0] == "bin" and t[1] in ("Eq", "Ne"):
-            for a, b in ((t[2], t[3]), (t[3], t[2])):
-                if isinstance(a, tuple) and a[0] == "arg" and a[1] == argidx and const_of(b) == 0:
-                    is_zero_branch = (e.value == 1) == (t[1] == "Eq")
-                    if cls == "zero" and not is_zero_branch:
-                        return False
-                    if cls == "nonzero" and is_zero_branch:
-                        return False
+        if not (isinstance(t, tuple) and t[0] == "bin" and t[1] in OPS):
+            continue
+        op, c = None, None
+        a, b = _uncast(t[2]), _uncast(t[3])
+        if isinstance(a, tuple) and a[0] == "arg" and a[1] == argidx and const_of(b) is not None:
+            op, c = t[1], const_of(b)
+        elif isinstance(b, tuple) and b[0] == "arg" and b[1] == argidx and const_of(a) is not None:
+            op, c = FLIP[t[1]], const_of(a)
+        if op is None:
+            continue
+        taken = bool(e.value)
+        if cls == "zero":
+            possible = OPS[op](0, c) == taken
+        else:
+            # values >= 1: the comparison with c can come out `taken` for some value >= 1?
+            samples = {1, max(1, c - 1), max(1, c), c + 1, c + 2, 1 << 40}
+            possible = any(OPS[op](v, c) == taken for v in samples)
+        if not possible:
+            return False
     return True
 
 
